@@ -118,19 +118,73 @@ class PatternRewriter:
         return arg
 
 
+class PerformingPatternRewriter(PatternRewriter):
+    """recorder that ALSO performs insertions (and lets Operation.detach() take the op out of its block): for patterns
+    whose later steps look at the IR their earlier steps produced (not an xdsl class; contracts ask for it explicitly).
+    Everything else (replace / erase / inline) stays recorded only"""
+
+    def __init__(self, current_operation=None):
+        PatternRewriter.__init__(self, current_operation)
+        import xdsl.ir as _ir
+
+        _ir.PERFORM[0] = True
+
+    def _perform(self, ops, point):
+        if point is None:
+            point = InsertPoint.before(self.current_operation)
+        blk = point.block
+        if blk is None:
+            return
+        for o in ops:
+            if getattr(o, "parent", None) is not None:
+                o.detach()
+        if point.insert_before is None:
+            blk.add_ops(ops)
+        else:
+            blk.insert_ops_before(ops, point.insert_before)
+
+    def insert_op(self, ops, insertion_point=None):
+        ops = _as_list(ops)
+        self._rec("insert_op", ops, insertion_point)
+        self._perform(ops, insertion_point)
+
+    def insert_op_before_matched_op(self, ops):
+        self.insert_op(ops, InsertPoint.before(self.current_operation))
+
+    def insert_op_after_matched_op(self, ops):
+        self.insert_op(ops, InsertPoint.after(self.current_operation))
+
+    def insert_op_before(self, ops, target):
+        self.insert_op(ops, InsertPoint.before(target))
+
+    def insert_op_after(self, ops, target):
+        self.insert_op(ops, InsertPoint.after(target))
+
+    def insert_op_at_start(self, ops, block):
+        self.insert_op(ops, InsertPoint.at_start(block))
+
+    def insert_op_at_end(self, ops, block):
+        self.insert_op(ops, InsertPoint.at_end(block))
+
+
 def op_type_rewrite_pattern(f):
     return f
 
 
+WALKER_LOG = []  # (pattern, op or region) for every PatternRewriteWalker(...).rewrite_module / rewrite_region call, in order
+
+
 class PatternRewriteWalker:
-    def __init__(self, *a, **k):
-        pass
+    """recorder: which pattern (object) a pass lets loose on which module; the walk itself is not performed"""
+
+    def __init__(self, pattern=None, *a, **k):
+        self.pattern = pattern
 
     def rewrite_module(self, op):
-        pass
+        WALKER_LOG.append((self.pattern, op))
 
     def rewrite_region(self, region):
-        pass
+        WALKER_LOG.append((self.pattern, region))
 
 
 class GreedyRewritePatternApplier(RewritePattern):
